@@ -111,7 +111,9 @@ class Prop:
     rule = ("objects bq | bbq cap 1..3 | latch 0..3; 1..4 threads with 0..4 scripted operations each; 40% of the cases offer "
             "spurious wake-ups; random schedules of 0..40 decisions (dense and sparse) plus, for the small configurations "
             "listed in the plug-in, every schedule with at most 2 preemptions; a run is non-trivial when the scheduler had at "
-            "least one real decision or the run ended all-blocked; distinct = distinct observable traces")
+            "least one real decision or the run ended all-blocked; distinct = distinct observable traces. When the harness no "
+            "longer compiles because the members it names were renamed or merged, it is rebuilt with scheduler-assigned names "
+            "and the search for a failing input runs under the oracle alone")
     trusted_base = [
         "Lean 4.33.0 kernel; axioms allowed: propext, Classical.choice, Quot.sound",
         "vlib/extract.py + vlib/gen/monitor.py (clang-14 JSON AST -> Generated/Monitor.lean: statement skeletons and loop guards)",
